@@ -326,9 +326,38 @@ def check_pop_refuses_short_vector(ctx, F, tag, rule="C05.R3.pop-refuses-a-short
            "%d Some(..) results, each behind `len >= width` on the width parameter itself%s" % (len(somes), ("; " + "; ".join(notes)) if notes else ""), positive=verdict is False)
 
 
+RAW_WRITE_SITES = {
+    ("<int_vector::IntVector as ops::Access<'a>>::set", "set_int"): "item index < len, offset = index * width (C05.R2.item-access-inside-the-vector)",
+    ("bit_vector::BitVector::copy_bit_vec", "set_bit"): "positions yielded by the source's one_iter(), below the source's len(), which is the length the raw vector was made with",
+    ("sparse_vector::SparseBuilder::set_unchecked", "set_bit"): "high part + number of items so far, below ones + buckets = high.len() while the builder is not full (C16.R2 guards)",
+}
+
+
+def check_raw_write_sites(ctx, F, tag, rule="C05.R2.raw-write-sites-reviewed"):
+    """set_int / set_bit write where they are told to (the words exist up to the next word boundary, so a write that reaches past
+    the logical length neither panics nor is undefined): whether the bits past the end stay zero is up to each caller.  The callers
+    outside raw_vector.rs are enumerated; each pinned one carries the reason its range lies inside the length; a site the
+    pinned tree does not have (a word-at-a-time fill, ..) is undecided -- never silent."""
+    seen = {}
+    for b in F.all_bodies():
+        if "::tests::" in b.name or b.name.startswith("internal::") or b.raw["span"].startswith("src/raw_vector.rs"):
+            continue
+        for bi, t in b.calls():
+            cn = callee_name(t)
+            last = cn.split("::")[-1]
+            if last in ("set_int", "set_bit") and "AccessRaw" in cn:
+                k = seen.get((b.name, last), 0)
+                seen[(b.name, last)] = k + 1
+                why = RAW_WRITE_SITES.get((b.name, last))
+                ctx.ob(rule, "%s|%s#%d%s" % (b.name, last, k, tag), loc(t["sp"]), True if why and k == 0 else None, "site-enumeration",
+                       why if why and k == 0 else "a write into a raw vector from a site the pinned tree does not have: that its range stays below the vector's length is not decided")
+    ctx.count("raw-write-sites" + tag, sum(seen.values()))
+
+
 def check_config(ctx, F, tag):
     check_tail_invariant(ctx, F, tag)
     check_pop_refuses_short_vector(ctx, F, tag)
+    check_raw_write_sites(ctx, F, tag)
     check_grow_fill(ctx, F, tag)
     from core import Relabel
     if not isinstance(ctx, Relabel) and tag in ("", "@portable"):
@@ -625,6 +654,80 @@ def check_write_int(ctx, F, tag, prefix):
                 raw_uses.append("call %s" % callee_name(t))
     ctx.ob(prefix + ".value-masked-before-store", "bits::write_int" + tag, loc(wb.raw["span"]), masked is not None and not raw_uses and len(stores) >= 2, "dataflow",
            "value reaches stores/calls only as value & low_set(width): unmasked uses %s; %d stores" % (raw_uses, len(stores)))
+    # every store lies inside one of the two arms of the test "does the field fit into the word" (offset + width <= 64 or its
+    # negation is a fact at the store): a store ahead of that test -- a fast path that writes one word for every offset -- loses the
+    # part of a field that crosses the word boundary
+    from guards import facts_at as _facts_at, strip_casts as _sc
+
+    def fit_fact(f):
+        if f[0] != "cmp" or f[1] not in ("Le", "Lt", "Gt", "Ge"):
+            return False
+        sides = [_sc(f[2]), _sc(f[3])]
+        return any(x[:2] == ("const", 64) or (x[0] == "const" and len(x) > 2 and str(x[2]).endswith("WORD_BITS")) for x in sides) and \
+            any(x[0] == "bin" and x[1] == "Add" and any(y[:2] == ("param", 3) for y in subterms(x)) for x in sides)
+    # Paths, not blocks (the first-word stores may be hoisted out of the test, the spill written under `if !fits`): leaving out the
+    # edges on which the field is known to fit and the blocks that store into the second word, no return may be reachable.  If one
+    # is, and it stays reachable when every edge that tests the offset in any way is left out as well, the function writes one
+    # word whatever the offset: refuted.  If only some other test of the offset opens the path (aligned power-of-two fields):
+    # undecided.
+    from guards import edge_facts as _edge_facts
+
+    def is_fit(f, positive):
+        if f[0] == "bool" and isinstance(f[1], tuple) and f[1] and f[1][0] == "bin":
+            val = f[2] if isinstance(f[2], bool) else (str(f[2]) == "True")
+            g = ("cmp", f[1][1], f[1][2], f[1][3])
+            if not val:
+                neg = {"Le": "Gt", "Lt": "Ge", "Gt": "Le", "Ge": "Lt"}.get(g[1])
+                if neg is None:
+                    return False
+                g = ("cmp", neg, g[2], g[3])
+            f = g
+        if not fit_fact(f):
+            return False
+        sides = [_sc(f[2]), _sc(f[3])]
+        sum_left = sides[0][0] == "bin"
+        fits = (f[1] in ("Le", "Lt")) == sum_left          # sum <= 64  /  64 >= sum
+        return fits == positive
+
+    def about_offset(f):
+        return any(any(isinstance(x, tuple) and x and ((x[0] == "call" and x[1] == "bits::split_offset") or x[:2] == ("param", 1)) for x in subterms(y))
+                   for y in f[1:] if isinstance(y, tuple))
+    spill = set(bi for bi, st, t in stores if any(x[0] == "bin" and x[1] == "Add" and _sc(x[3])[:2] == ("const", 1) for x in subterms(wb.term_of_place(st["lhs"])) ) ) if hasattr(wb, "term_of_place") else None
+    if spill is None:
+        # the second word: a store whose index place is `index + 1` -- recognised through the IndexMut call that produced the reference
+        spill = set()
+        for bi, t in wb.calls():
+            if callee_name(t).split("::")[-1] == "index_mut" and len(t["args"]) == 2:
+                ix = _sc(wb.term_of_operand(t["args"][1]))
+                if ix[0] == "bin" and ix[1] == "Add" and _sc(ix[3])[:2] == ("const", 1):
+                    spill.add(bi)
+    ef = list(_edge_facts(wb))
+    rets = set(wb.return_blocks())
+
+    def reach(cut):
+        seen, st_ = set(), [0]
+        while st_:
+            x = st_.pop()
+            if x in seen or x in spill:
+                continue
+            seen.add(x)
+            for y in wb.succ(x):
+                if (x, y) in cut:
+                    continue
+                st_.append(y)
+        return bool(seen & rets)
+    cut_fit = set((u, v) for u, v, f in ef if is_fit(f, True))
+    cut_any = set((u, v) for u, v, f in ef if about_offset(f))
+    if not stores or not spill:
+        verdict = None
+    elif not reach(cut_fit):
+        verdict = True
+    else:
+        verdict = False if reach(cut_fit | cut_any) else None
+    ctx.ob(prefix + ".stores-inside-the-fit-test", "bits::write_int" + tag, loc(wb.raw["span"]), verdict, "must-pass-through(edges)",
+           "%d stores, %d into the second word; every path to return either knows offset + width <= 64 or stores into the second word: %s" % (
+               len(stores), len(spill), {True: "yes", False: "no -- a path writes one word without any test of the offset", None: "not decided (another test of the offset opens a path)"}[verdict]))
+
     def value_free(t):
         return not any(x[:2] == ("param", 2) for x in subterms(t))
 
